@@ -238,6 +238,24 @@ def judge(ctx, idx, case):
                 problems.append({"call": "serialize(%s) of a document observed during construction vs an unobserved twin" % fmt,
                                  "differs": "content read back by the independent reader", "diff": strict.jsonable(strict.diff(b, a, 4))})
                 break
+    if not problems and idx % 20 == 3:
+        # "two documents built by the same calls": one of them in a fresh interpreter process (before anything there has exported or
+        # read a document), handed over by pickle; text may differ across processes (set iteration order), what it denotes may not
+        from pv.readers import provjson as jr2, provxml as xr2, provn as nr2
+        there = common.build_elsewhere(case["ops"])
+        if there is not None:
+            here = interp.run(case["ops"], use_pool=False).doc
+            for fmt, rd in (("json", jr2), ("xml", xr2), ("provn", nr2)):
+                try:
+                    a, b = rd.read(there.doc.serialize(format=fmt))[0], rd.read(here.serialize(format=fmt))[0]
+                except Exception:
+                    ctx.count("fresh_process_twin.%s.not_comparable" % fmt)
+                    continue
+                ctx.count("fresh_process_twin.%s.compared" % fmt)
+                if a != b:
+                    problems.append({"call": "serialize(%s) of a twin built by the same calls in a fresh interpreter process" % fmt,
+                                     "differs": "content read back by the independent reader", "diff": strict.jsonable(strict.diff(b, a, 4))})
+                    break
     reports = [(what, wit) for mon, what, wit in hub.drain() if mon == "PURE"]
     if reports:
         ctx.violation(idx, "PURE monitor: %s" % reports[0][0][:300], case, {"reports": [{"what": w, "witness": x} for w, x in reports[:5]]})
